@@ -312,3 +312,69 @@ func VerifH_C13_set() {
 	}
 	vapi.Assert("set.no-alias", sameIDs(v2ids(c.m.V2PoolTransactions()), poolBefore))
 }
+
+// VerifH_C13_rebase_staggered: members of the set are confirmed in different
+// blocks along the path: exactly the members no block on the way confirmed
+// survive, in order, each with a proof at the target.
+//
+//verif:harness prop=C13 tier=quick replay=interp z3timeout=400 require=rebased bounds="chain b0 <- b1 <- b2 <- b3; set of three independent transactions, each confirmed in b1, b2, b3 (one per block) or never; rebase from b0 to b1..b3"
+func VerifH_C13_rebase_staggered() {
+	newAbsPool()
+	w := &poolWorld{c: newAbsChain(), next: 1}
+	c := w.c
+	b0 := c.newBlock(0, true)
+	vapi.Assert("build.block", c.m.AddBlocks([]types.Block{b0}) == nil)
+	var set []types.V2Transaction
+	var where []int // 1..3: confirmed in that block; 0: never
+	for k := 0; k < 3; k++ {
+		// leaf numbers 5, 9, 13: with the abstract one-hash proofs only leaves
+		// whose second bit is clear survive the block codec's multiproof
+		set = append(set, newV2(byte(20+k), nil, byte(5+4*k)))
+		where = append(where, vapi.Int("confirmed-in", 0, 3))
+	}
+	w.next = 25
+	// one transaction per block at most: the abstract one-hash proofs do not
+	// survive the block codec's multiproof compression of several inputs
+	for a := 0; a < 3; a++ {
+		for b := a + 1; b < 3; b++ {
+			vapi.Assume(where[a] == 0 || where[a] != where[b])
+		}
+	}
+	blocks := []types.Block{b0}
+	for h := 1; h <= 3; h++ {
+		var txns []types.V2Transaction
+		for k := range set {
+			if where[k] == h {
+				txns = append(txns, set[k])
+			}
+		}
+		b := w.v2Block(txns...)
+		vapi.Assert("build.chain", c.m.AddBlocks([]types.Block{b}) == nil && c.m.Tip().ID == b.ID())
+		blocks = append(blocks, b)
+	}
+	idx := func(b types.Block) types.ChainIndex { return types.ChainIndex{Height: c.height[b.Nonce], ID: b.ID()} }
+	to := vapi.Int("to", 1, 3)
+	in := make([]types.V2Transaction, len(set))
+	for i := range set {
+		in[i] = set[i].DeepCopy()
+	}
+	out, err := c.m.UpdateV2TransactionSet(in, idx(b0), idx(blocks[to]))
+	vapi.Assert("staggered.no-error", err == nil)
+	if err != nil {
+		return
+	}
+	vapi.Reach("rebased")
+	var want []types.TransactionID
+	for k := range set {
+		if where[k] == 0 || where[k] > to {
+			want = append(want, set[k].ID())
+		}
+	}
+	vapi.Assert("staggered.exactly-the-unconfirmed-survive-in-order", sameIDs(v2ids(out), want))
+	for i := range out {
+		for _, sci := range out[i].SiacoinInputs {
+			se := sci.Parent.StateElement
+			vapi.Assert("staggered.proof-at-target", len(se.MerkleProof) == 1 && se.MerkleProof[0][0] == byte(blocks[to].Nonce) && se.MerkleProof[0][2] == 0)
+		}
+	}
+}
